@@ -454,7 +454,8 @@ impl<'a> Gen<'a> {
             K::TapDance => {
                 let eager = self.rng.coin();
                 let t = self.timeout();
-                let n = 1 + self.rng.usize(4);
+                // an empty list is rejected by the parser (it used to be accepted and crash)
+                let n = if self.out_of_range && self.rng.chance(1, 3) { 0 } else { 1 + self.rng.usize(4) };
                 let mut items = vec![];
                 for _ in 0..n {
                     items.push(self.sub(&c));
